@@ -28,6 +28,8 @@ const PROPS: &[P] = &[
     P { key: "fn1", type_key: "fn1", ty: "() => void", fn_typed: true },
     P { key: "fn2", type_key: "\"fn2\"", ty: "Function", fn_typed: true },
     P { key: "7", type_key: "7", ty: "number", fn_typed: false },
+    // a second numeric key: defaults must be matched by value, not by kind
+    P { key: "8", type_key: "8", ty: "number", fn_typed: false },
     // Function is only one member of the runtime type set: Vue still treats a function default as
     // a factory (`opt.type !== Function`), so the written function must stay wrapped
     P { key: "uf1", type_key: "uf1", ty: "string | (() => string)", fn_typed: false },
@@ -92,10 +94,10 @@ pub fn gen_case(c: &mut Choices) -> Case {
                 1 => format!("\"{}\"", p.key),
                 _ => format!("[\"{}\"]", p.key),
             }
-        } else if p.key == "7" {
+        } else if p.key.chars().all(|ch| ch.is_ascii_digit()) {
             match c.pick(2) {
-                0 => "7".to_string(),
-                _ => "[7]".to_string(),
+                0 => p.key.to_string(),
+                _ => format!("[{}]", p.key),
             }
         } else {
             match c.pick(2) {
